@@ -147,8 +147,11 @@ def gen_ir(g, rng, cov, n_modules=None, entry_later=False, with_aux=True):
                         if rng.random() < 0.3:
                             attrs.add(rng.choice([27, 999, 5000, 123456]))      # numbers the enum does not define
                             cov.hit("attribute-unknown-number")
+                        if rng.random() < 0.4 and getattr(cov, "_last_attrs", None):
+                            attrs = set(cov._last_attrs)            # an equal attribute set on another expression (never the same object)
                         if attrs:
                             cov.hit("attribute-known")
+                            cov._last_attrs = set(attrs)
                         if rng.random() < 0.6:
                             e = g.SymAddrConst(bnd_i64(rng), rng.choice(syms), attrs)
                         else:
@@ -348,6 +351,12 @@ def gen_message(rng, enums, cov, version=4):
                         if rng.random() < 0.25:
                             at.append(rng.choice([27, 999, 5000]))
                             cov.hit("msg-attribute-unknown-number")
+                        # several expressions carrying the SAME flag list (common in real files): each must get its own set
+                        if rng.random() < 0.4 and getattr(cov, "_last_flags", None):
+                            at = list(cov._last_flags)
+                            cov.hit("msg-attribute-list-repeated")
+                        if at:
+                            cov._last_flags = list(at)
                         if rng.random() < 0.6:
                             v = [0, bnd_i64(rng), ub(rng.choice(syms_all))]
                         else:
